@@ -28,6 +28,7 @@ func init() {
 			{ID: "C06-R5", Title: "cancellation observed by a blocking primitive is reported as an error", Floor: 2, Run: c06r5},
 			{ID: "C06-R6", Title: "nothing that runs scripts detaches from the caller's cancellation", Floor: 30, Run: ctxNotDetached},
 			{ID: "C06-R7", Title: "the VM passes on only contexts derived from the one it was given", Floor: 5, Run: ctxArgsDeriveFromParam},
+			{ID: "C06-R8", Title: "arm/disarm pairing on every exit (shared with C07-R2)", Floor: 2, Run: c07r2},
 		},
 	})
 }
